@@ -1,5 +1,301 @@
-import Knee.Model.Hull
-import Knee.Model.Metrics
+import Knee.Lemmas.Geometry
+/-!
+# C17 — the exact geometric primitives compute what their names say
+
+Models (Layer N, exact over ℚ, squares instead of square roots): `Knee.perpSq`, `Knee.shortestSq`
+(linear_fit.perpendicular_distance_points / shortest_distance_points), `Knee.rect`,
+`Knee.rectOverlap` (knee_ranking.rect / rect_overlap), `Knee.mengerSq` (menger.menger_curvature),
+`Knee.triArea` (postprocessing.triangle_area), `Knee.rankOf` (knee_ranking.rank).
+`distSqAt p a b lam` is the squared distance from `p` to the point `a + lam·(b - a)`.
+Helper lemmas: `Lemmas/Geometry.lean`.
+-/
 namespace Knee
-theorem stub_C17 : True := trivial
+
+/-! ## A. perpendicular distance = distance to the infinite line -/
+
+theorem perpSq_le (p a b : P2) (hab : a ≠ b) (lam : Rat) :
+    perpSq p a b ≤ distSqAt p a b lam := by
+  have hN := normSq_sub_pos hab
+  have h1 := perpSq_mul_normSq p a b hab
+  have h2 := distSqAt_mul_normSq p a b lam
+  have h3 := mul_self_nonneg (dot (sub p a) (sub b a) - lam * normSq (sub b a))
+  exact le_of_mul_le_mul_right (by rw [h1, h2]; linarith) hN
+
+theorem perpSq_attained (p a b : P2) (hab : a ≠ b) :
+    ∃ lam, distSqAt p a b lam = perpSq p a b := by
+  have hN := normSq_sub_pos hab
+  refine ⟨dot (sub p a) (sub b a) / normSq (sub b a), ?_⟩
+  apply mul_right_cancel₀ hN.ne'
+  rw [perpSq_mul_normSq p a b hab, distSqAt_mul_normSq, div_mul_cancel₀ _ hN.ne']
+  ring
+
+/-! ## B. shortest distance = distance to the closed segment -/
+
+theorem shortestSq_le (p a b : P2) (hab : a ≠ b) (lam : Rat) (h0 : 0 ≤ lam) (h1 : lam ≤ 1) :
+    shortestSq p a b ≤ distSqAt p a b lam := by
+  have hN := normSq_sub_pos hab
+  apply le_of_mul_le_mul_right _ hN
+  rw [shortestSq_mul_normSq p a b hab, distSqAt_mul_normSq]
+  generalize dot (sub p a) (sub b a) = d at *
+  generalize normSq (sub b a) = N at *
+  generalize cross (sub p a) (sub b a) = c at *
+  have hl : 0 ≤ lam * N := mul_nonneg h0 hN.le
+  have hl' : lam * N ≤ N := by nlinarith
+  unfold rmax
+  split_ifs <;> nlinarith
+
+theorem shortestSq_attained (p a b : P2) (hab : a ≠ b) :
+    ∃ lam, 0 ≤ lam ∧ lam ≤ 1 ∧ distSqAt p a b lam = shortestSq p a b := by
+  have hN := normSq_sub_pos hab
+  have key : ∀ lam, distSqAt p a b lam * normSq (sub b a) = shortestSq p a b * normSq (sub b a) →
+      distSqAt p a b lam = shortestSq p a b := fun lam h => mul_right_cancel₀ hN.ne' h
+  by_cases hd0 : dot (sub p a) (sub b a) ≤ 0
+  · refine ⟨0, le_refl _, zero_le_one, key _ ?_⟩
+    rw [shortestSq_mul_normSq p a b hab, distSqAt_mul_normSq]
+    unfold rmax
+    split_ifs <;> nlinarith
+  · by_cases hd1 : normSq (sub b a) ≤ dot (sub p a) (sub b a)
+    · refine ⟨1, zero_le_one, le_refl _, key _ ?_⟩
+      rw [shortestSq_mul_normSq p a b hab, distSqAt_mul_normSq]
+      unfold rmax
+      split_ifs <;> nlinarith
+    · have hd0' := not_le.1 hd0
+      have hd1' := not_le.1 hd1
+      refine ⟨dot (sub p a) (sub b a) / normSq (sub b a), (div_pos hd0' hN).le,
+        (div_le_one hN).2 hd1'.le, key _ ?_⟩
+      rw [shortestSq_mul_normSq p a b hab, distSqAt_mul_normSq, div_mul_cancel₀ _ hN.ne']
+      unfold rmax
+      split_ifs <;> nlinarith
+
+theorem shortestSq_degenerate (p a : P2) : shortestSq p a a = normSq (sub p a) := by
+  simp [shortestSq]
+
+theorem shortestSq_endpoints (a b : P2) : shortestSq a a b = 0 ∧ shortestSq b a b = 0 := by
+  by_cases hab : a = b
+  · subst hab
+    obtain ⟨ax, ay⟩ := a
+    simp [shortestSq, normSq, dot, sub]
+  · have e0 : distSqAt a a b 0 = 0 := by
+      simp [distSqAt, normSq, dot, sub]
+    have e1 : distSqAt b a b 1 = 0 := by
+      simp [distSqAt, normSq, dot, sub]
+    constructor
+    · exact le_antisymm (e0 ▸ shortestSq_le a a b hab 0 (le_refl _) zero_le_one)
+        (shortestSq_nonneg a a b)
+    · exact le_antisymm (e1 ▸ shortestSq_le b a b hab 1 zero_le_one (le_refl _))
+        (shortestSq_nonneg b a b)
+
+/-- the segment is part of the line: the line distance never exceeds the segment distance -/
+theorem perpSq_le_shortestSq (p a b : P2) (hab : a ≠ b) : perpSq p a b ≤ shortestSq p a b := by
+  obtain ⟨lam, _, _, h⟩ := shortestSq_attained p a b hab
+  exact h ▸ perpSq_le p a b hab lam
+
+/-! ## C. intersection over union -/
+
+theorem iou_symm (amin amax bmin bmax : Rat × Rat) :
+    rectOverlap amin amax bmin bmax = rectOverlap bmin bmax amin amax := by
+  simp only [rectOverlap]
+  rw [ovl_comm amin.1, ovl_comm amin.2,
+    add_comm (rabs (amax.1 - amin.1) * rabs (amax.2 - amin.2))]
+
+theorem iou_nonneg (amin amax bmin bmax : Rat × Rat) : 0 ≤ rectOverlap amin amax bmin bmax := by
+  obtain ⟨hA, hB⟩ := rectOverlap_ov_le amin amax bmin bmax
+  simp only [rectOverlap]
+  split_ifs with h
+  · exact div_nonneg h.le (by linarith)
+  · exact le_refl _
+
+theorem iou_le_one (amin amax bmin bmax : Rat × Rat) : rectOverlap amin amax bmin bmax ≤ 1 := by
+  obtain ⟨hA, hB⟩ := rectOverlap_ov_le amin amax bmin bmax
+  simp only [rectOverlap]
+  split_ifs with h
+  · rw [div_le_one (by linarith)]
+    linarith
+  · exact zero_le_one
+
+theorem iou_self (amin amax : Rat × Rat) (h1 : amin.1 < amax.1) (h2 : amin.2 < amax.2) :
+    rectOverlap amin amax amin amax = 1 := by
+  have ha1 : rabs (amax.1 - amin.1) = amax.1 - amin.1 := by
+    unfold rabs; split_ifs <;> linarith
+  have ha2 : rabs (amax.2 - amin.2) = amax.2 - amin.2 := by
+    unfold rabs; split_ifs <;> linarith
+  have hpos : 0 < (amax.1 - amin.1) * (amax.2 - amin.2) :=
+    mul_pos (by linarith) (by linarith)
+  simp only [rectOverlap]
+  rw [ovl_self _ _ h1.le, ovl_self _ _ h2.le, ha1, ha2, if_pos hpos]
+  rw [div_eq_one_iff_eq (by linarith)]
+  ring
+
+theorem iou_disjoint (amin amax bmin bmax : Rat × Rat)
+    (h : amax.1 ≤ bmin.1 ∨ bmax.1 ≤ amin.1 ∨ amax.2 ≤ bmin.2 ∨ bmax.2 ≤ amin.2) :
+    rectOverlap amin amax bmin bmax = 0 := by
+  simp only [rectOverlap]
+  have : rmax 0 (rmin amax.1 bmax.1 - rmax amin.1 bmin.1)
+      * rmax 0 (rmin amax.2 bmax.2 - rmax amin.2 bmin.2) = 0 := by
+    rcases h with h | h | h | h
+    · rw [ovl_disjoint _ _ _ _ (Or.inl h), zero_mul]
+    · rw [ovl_disjoint _ _ _ _ (Or.inr h), zero_mul]
+    · rw [ovl_disjoint amin.2 _ _ _ (Or.inl h), mul_zero]
+    · rw [ovl_disjoint amin.2 _ _ _ (Or.inr h), mul_zero]
+  rw [this]
+  simp
+
+theorem rect_ordered (p q : Rat × Rat) :
+    (rect p q).1.1 ≤ (rect p q).2.1 ∧ (rect p q).1.2 ≤ (rect p q).2.2 := by
+  simp only [rect]
+  unfold rmin rmax
+  constructor <;> split_ifs <;> linarith
+
+/-! ## D. Menger curvature -/
+
+theorem mengerSq_symm_swap12 (f g h : P2) : mengerSq f g h = mengerSq g f h := by
+  obtain ⟨fx, fy⟩ := f
+  obtain ⟨gx, gy⟩ := g
+  obtain ⟨hx, hy⟩ := h
+  simp only [mengerSq, normSq, dot, cross, sub]
+  congr 1 <;> ring
+
+theorem mengerSq_symm_swap23 (f g h : P2) : mengerSq f g h = mengerSq f h g := by
+  obtain ⟨fx, fy⟩ := f
+  obtain ⟨gx, gy⟩ := g
+  obtain ⟨hx, hy⟩ := h
+  simp only [mengerSq, normSq, dot, cross, sub]
+  congr 1 <;> ring
+
+theorem mengerSq_nonneg (f g h : P2) : 0 ≤ mengerSq f g h := by
+  simp only [mengerSq]
+  apply div_nonneg
+  · rw [mul_assoc]; exact mul_nonneg (by norm_num) (mul_self_nonneg _)
+  · exact mul_nonneg (mul_nonneg (normSq_nonneg _) (normSq_nonneg _)) (normSq_nonneg _)
+
+theorem mengerSq_collinear (f g h : P2) (hc : cross (sub g f) (sub h g) = 0) :
+    mengerSq f g h = 0 := by
+  simp [mengerSq, hc]
+
+theorem mengerSq_zero_iff (f g h : P2) (hfg : f ≠ g) (hgh : g ≠ h) (hhf : h ≠ f) :
+    mengerSq f g h = 0 ↔ cross (sub g f) (sub h g) = 0 := by
+  have h1 := normSq_sub_pos hfg
+  have h2 := normSq_sub_pos hgh
+  have h3 := normSq_sub_pos hhf
+  refine ⟨fun h0 => ?_, mengerSq_collinear f g h⟩
+  simp only [mengerSq] at h0
+  rcases div_eq_zero_iff.1 h0 with h0 | h0
+  · have : cross (sub g f) (sub h g) * cross (sub g f) (sub h g) = 0 := by linarith
+    exact mul_self_eq_zero.1 this
+  · exact absurd h0 (mul_pos (mul_pos h1 h2) h3).ne'
+
+/-- Reciprocal circumradius: for non-collinear `f g h` the (rational) circumcentre `c` is
+equidistant from the three points and `mengerSq f g h = 1 / |c - f|²`. -/
+theorem mengerSq_eq_inv_circumradiusSq (f g h : P2) (hc : cross (sub g f) (sub h g) ≠ 0) :
+    ∃ c : P2, normSq (sub c f) = normSq (sub c g) ∧ normSq (sub c g) = normSq (sub c h)
+      ∧ mengerSq f g h * normSq (sub c f) = 1 := by
+  have hfg : f ≠ g := by
+    rintro rfl; apply hc; simp only [cross, sub]; ring
+  have hgh : g ≠ h := by
+    rintro rfl; apply hc; simp only [cross, sub]; ring
+  have hhf : h ≠ f := by
+    rintro rfl; apply hc; simp only [cross, sub]; ring
+  have h1 := (normSq_sub_pos hfg).ne'
+  have h2 := (normSq_sub_pos hgh).ne'
+  have h3 := (normSq_sub_pos hhf).ne'
+  have hden := mul_ne_zero (mul_ne_zero h1 h2) h3
+  obtain ⟨fx, fy⟩ := f
+  obtain ⟨gx, gy⟩ := g
+  obtain ⟨hx, hy⟩ := h
+  simp only [normSq, dot, cross, sub] at hc hden
+  have hK : (gx - fx) * (hy - fy) - (gy - fy) * (hx - fx) ≠ 0 := by
+    intro h0; apply hc; linear_combination h0
+  have hD : 2 * ((gx - fx) * (hy - fy) - (gy - fy) * (hx - fx)) ≠ 0 :=
+    mul_ne_zero two_ne_zero hK
+  obtain ⟨ox, hox⟩ : ∃ ox, ox * (2 * ((gx - fx) * (hy - fy) - (gy - fy) * (hx - fx)))
+      = (hy - fy) * ((gx - fx) * (gx - fx) + (gy - fy) * (gy - fy))
+        - (gy - fy) * ((hx - fx) * (hx - fx) + (hy - fy) * (hy - fy)) :=
+    ⟨_, div_mul_cancel₀ _ hD⟩
+  obtain ⟨oy, hoy⟩ : ∃ oy, oy * (2 * ((gx - fx) * (hy - fy) - (gy - fy) * (hx - fx)))
+      = (gx - fx) * ((hx - fx) * (hx - fx) + (hy - fy) * (hy - fy))
+        - (hx - fx) * ((gx - fx) * (gx - fx) + (gy - fy) * (gy - fy)) :=
+    ⟨_, div_mul_cancel₀ _ hD⟩
+  obtain ⟨e1, e2, e3⟩ := circum_aux (gx - fx) (gy - fy) (hx - fx) (hy - fy) ox oy hK hox hoy
+  refine ⟨(fx + ox, fy + oy), ?_, ?_, ?_⟩
+  · simp only [normSq, dot, sub]
+    linear_combination e1
+  · simp only [normSq, dot, sub]
+    linear_combination e2 - e1
+  · simp only [mengerSq, normSq, dot, cross, sub]
+    rw [div_mul_eq_mul_div, div_eq_one_iff_eq hden]
+    linear_combination e3
+
+/-! ## F. signed triangle area -/
+
+theorem triArea_def (p0 p1 p2 : P2) : triArea p0 p1 p2 = cross (sub p1 p0) (sub p2 p0) / 2 := by
+  simp only [triArea, cross, sub]
+  ring
+
+/-! ## E. `rankOf` is the stable-sort rank permutation -/
+
+theorem rankOf_length (v : List Rat) : (rankOf v).length = v.length := by
+  simp [rankOf]
+
+theorem rankOf_lt (v : List Rat) : ∀ r ∈ rankOf v, r < v.length := by
+  intro r hr
+  rw [rankOf_eq, List.mem_map] at hr
+  obtain ⟨i, hi, rfl⟩ := hr
+  exact rk_lt_length v (List.mem_range.1 hi)
+
+theorem rankOf_orders (v : List Rat) (i j : Nat) (hi : i < v.length) (hj : j < v.length) :
+    (rankOf v)[i]?.getD 0 < (rankOf v)[j]?.getD 0 → v[i]?.getD 0 ≤ v[j]?.getD 0 := by
+  rw [rankOf_getD v hi, rankOf_getD v hj]
+  intro h
+  by_contra hlt
+  have : rkLt v j i = true := (rkLt_iff v j i).2 (Or.inl (not_le.1 hlt))
+  exact absurd (rk_lt_of_rkLt v hj this) (Nat.lt_asymm h)
+
+/-- ties are ranked by position (stable sort) -/
+theorem rankOf_stable (v : List Rat) (i j : Nat) (hj : j < v.length) (hij : i < j)
+    (he : v[i]?.getD 0 = v[j]?.getD 0) : (rankOf v)[i]?.getD 0 < (rankOf v)[j]?.getD 0 := by
+  have hi : i < v.length := Nat.lt_trans hij hj
+  rw [rankOf_getD v hi, rankOf_getD v hj]
+  exact rk_lt_of_rkLt v hi ((rkLt_iff v i j).2 (Or.inr ⟨he, hij⟩))
+
+theorem rankOf_injective (v : List Rat) (i j : Nat) (hi : i < v.length) (hj : j < v.length)
+    (h : (rankOf v)[i]?.getD 0 = (rankOf v)[j]?.getD 0) : i = j := by
+  rw [rankOf_getD v hi, rankOf_getD v hj] at h
+  exact rk_injective v hi hj h
+
+theorem rankOf_nodup (v : List Rat) : (rankOf v).Nodup := by
+  rw [rankOf_eq, List.Nodup, List.pairwise_map]
+  refine List.Pairwise.imp_of_mem ?_ (List.pairwise_lt_range (n := v.length))
+  intro i j hi hj hij heq
+  exact absurd (rk_injective v (List.mem_range.1 hi) (List.mem_range.1 hj) heq) (Nat.ne_of_lt hij)
+
+/-- hence the ranks are a permutation of `0 .. n-1` -/
+theorem rankOf_perm (v : List Rat) : (rankOf v).Perm (List.range v.length) := by
+  apply List.Subperm.perm_of_length_le
+  · exact List.subperm_of_subset (rankOf_nodup v)
+      (fun r hr => List.mem_range.2 (rankOf_lt v r hr))
+  · simp [rankOf_length]
+
+/-! ## Non-vacuity: the models compute the expected values on concrete inputs. -/
+
+example : shortestSq (0, 1) (0, 0) (2, 0) = 1 := by decide +kernel
+example : shortestSq (3, 4) (0, 0) (0, 0) = 25 := by decide +kernel
+example : perpSq (3, 1) (0, 0) (2, 0) = 1 := by decide +kernel
+/-- beyond the end of the segment the two distances differ -/
+example : shortestSq (3, 1) (0, 0) (2, 0) = 2 := by decide +kernel
+example : distSqAt (3, 1) (0, 0) (2, 0) 1 = 2 := by decide +kernel
+/-- two 2×2 squares sharing a unit square: 1 / (4 + 4 - 1) -/
+example : rectOverlap (0, 0) (2, 2) (1, 1) (3, 3) = 1 / 7 := by decide +kernel
+example : rectOverlap (0, 0) (1, 1) (1 / 4, 1 / 2) (5 / 4, 3 / 2) = 3 / 13 := by decide +kernel
+example : rectOverlap (0, 0) (1, 1) (1, 0) (2, 1) = 0 := by decide +kernel
+example : rect (3, 0) (1, 2) = ((1, 0), (3, 2)) := by decide +kernel
+example : cornerIoU (0, 0) (1, 2) (3, 3) = 1 / 9 := by decide +kernel
+/-- right triangle with legs 1: circumradius² = 1/2, curvature² = 2 -/
+example : mengerSq (0, 0) (1, 0) (0, 1) = 2 := by decide +kernel
+example : cross (sub ((1, 0) : P2) (0, 0)) (sub (0, 1) (1, 0)) ≠ 0 := by decide +kernel
+example : mengerSq (0, 0) (1, 1) (2, 2) = 0 := by decide +kernel
+example : rankOf [3, 1, 2] = [2, 0, 1] := by decide +kernel
+/-- ties are broken by position -/
+example : rankOf [2, 1, 2, 1] = [2, 0, 3, 1] := by decide +kernel
+example : triArea (0, 0) (1, 0) (0, 1) = 1 / 2 := by decide +kernel
+
 end Knee
